@@ -187,7 +187,31 @@ def template_of(call, args):
     return None
 
 
-def writer_skeletons(f):
+def shape_of(f, p):
+    """abstract value the path writes: which optional fields of the step are present and how long
+    its lists are"""
+    opts = {}
+    lens = {}
+    for cond, val, others in p.conds:
+        if cond.k != "discr":
+            continue
+        pl = peel(cond.a, calls=None)
+        if pl.k == "call" and pl.a.name == "next":
+            k = show(pl)[:120]
+            if variant_name(f, cond, val, others) == "Some":
+                lens[k] = lens.get(k, 0) + 1
+            else:
+                lens.setdefault(k, 0)
+        else:
+            root = pl
+            while root.k in ("proj", "ref"):
+                root = peel(root.a, calls=None)
+            if root.k == "arg" and "Option" in (cond.b or ""):
+                opts[show(pl)[:120]] = variant_name(f, cond, val, others)
+    return tuple(sorted(opts.items())), tuple(sorted(lens.items()))
+
+
+def writer_skeletons(f, shapes=None):
     out = set()
     se = SymExec(f, max_paths=3000, max_visits=3)
     for p in se.run():
@@ -205,6 +229,10 @@ def writer_skeletons(f):
                     s += t
         if ok:
             out.add(s)
+            failed = p.ret is not None and (any(c.name == "from_residual" for c in p.ret.calls()) or
+                                            (p.ret.k == "agg" and p.ret.b == "Err"))
+            if shapes is not None and not failed:
+                shapes.setdefault(s, set()).add(shape_of(f, p))
     return out, se.truncated
 
 
@@ -234,7 +262,15 @@ def k2(led, rid, ctx):
             continue
         rf = p.fn("reader::" + rname)
         g = grammar(p, parser_expr(rf))
-        skels, trunc = writer_skeletons(w)
+        shapes = {}
+        skels, trunc = writer_skeletons(w, shapes)
+        clash = [(sk, sorted(v)) for sk, v in sorted(shapes.items()) if len({x[0] for x in v}) > 1]
+        led.check(not clash, rid, "%s:writer-injective" % kind, w.span,
+                  "steps that differ in which optional parts are present are written differently",
+                  "%s::write_string writes %r both for %s and for %s: the two steps cannot be told apart by "
+                  "any reader, so one of them does not read back as it was written"
+                  % (kind, clash[0][0] if clash else "", dict(clash[0][1][0][0]) if clash else "",
+                     dict(clash[0][1][1][0]) if clash else ""))
         led.check(bool(skels), rid, "%s:templates-recovered" % kind, w.span, "%d skeletons" % len(skels),
                   "could not recover the output templates of %s::write_string" % kind)
         bad = []
@@ -346,9 +382,54 @@ def k3(led, rid, ctx):
                       "comparison %s is written as %r (the reader expects %r)" % (v, sym.get(v), s_))
 
 
+INT_RE = None
+
+
+def k4(led, rid, ctx):
+    """NUM-WIDTH: every integer type that occurs in a field of the format's step / atomic types, and
+    every integer type the writer formats, has a reader parser of that very type"""
+    import re, json
+    p = ctx.drcp
+    need = {}
+    for path, a in p.adts.items():
+        if not path.startswith(("atomic::", "steps::")):
+            continue
+        for v in a["variants"]:
+            for fl in v["fields"]:
+                for m in re.finditer(r"\b([iu](?:8|16|32|64|128))\b", fl["ty"]):
+                    need.setdefault(m.group(1), "%s.%s" % (path, fl["name"]))
+    # what the writer formats
+    for f in p.fns.values():
+        if "/writer/" not in f.file and "literal_definitions" not in f.file:
+            continue
+        for c in f.calls:
+            if c.name in ("new_display", "new_debug") and c.generics:
+                for g in c.generics:
+                    for m in re.finditer(r"\b([iu](?:8|16|32|64|128))\b", g):
+                        need.setdefault(m.group(1), "formatted by %s" % f.name)
+    have = {}
+    for f in p.fns.values():
+        if "/tests" in f.file or "::tests::" in f.defn:
+            continue
+        js = json.dumps([b for b in f.blocks])
+        for m in re.finditer(r"nom::character::complete::([iu](?:8|16|32|64|128))\b", js):
+            have.setdefault(m.group(1), f.name)
+    led.check(len(have) >= 3, rid, "reader-integer-parsers", None, "parsers: %s" % sorted(have),
+              "fewer than three integer parsers found in the reader (%s)" % sorted(have))
+    for t, where in sorted(need.items()):
+        if t in ("u8",):
+            continue
+        led.check(t in have, rid, "width:%s" % t, None, "%s (%s) is parsed by %s" % (t, where, have.get(t)),
+                  "the format holds / writes values of type %s (%s) but the reader has no %s parser (it has %s): "
+                  "a value outside the narrower range is written by the library and rejected or cut off when "
+                  "read back" % (t, where, t, sorted(have)))
+    led.floor(rid, "integer types of the format", len(need), 3)
+
+
 def run(ctx, led):
     run_rule(led, "K1", "TOKENS: the literal tokens of writer and reader agree", k1, ctx)
     run_rule(led, "K2", "per step kind, every output skeleton of the writer (optional parts 0/1, lists "
              "0–2 elements) is in the language of the reader's grammar, after the trim the reader "
              "applies", k2, ctx)
     run_rule(led, "K3", "IntAtomicConstraint::not TABLE (involution) and comparison symbols", k3, ctx)
+    run_rule(led, "K4", "NUM-WIDTH: every integer type of the format has a reader parser of the same type", k4, ctx)
